@@ -955,7 +955,9 @@ def C09(c):
     c.mc("MmapLog", "2p2_2subs" if quick else "2p2_3subs", {"Pubs": [0, 1], "PerPub": 2, "Subs": [0, 1] if quick else [0, 1, 2]}, init="Init", next_="Next", deadlock=False,
          invariants=["InvPublishedOnly", "InvOneOrder", "InvProducerOrder", "InvSplit", "InvTails"], required_actions=["PubFA", "PubCAS", "Subscribe", "SubLoad", "SubRecede"], timeout=3000, workers=10)
     mr, rr = (250, 200) if quick else (5000, 4000)
-    checks = MULTI_DELIVERY + ["InvSameTotalOrder", "InvSplitPartitions"]
+    # "yields the entire history": a driven listener that is left parked with events of the history unread never does -- the wake-up of the
+    # log channel's listeners (every send wakes every listener) is judged here too (no recorded finding concerns the log channel)
+    checks = MULTI_DELIVERY + ["InvSameTotalOrder", "InvSplitPartitions", "InvNoLostWakeup"]
 
     def build(kind):
         out = []
@@ -1340,7 +1342,26 @@ def C06(c):
     c.mc("CloseProto", "close_l1", {"Limit": 1, "NEvents": 2, "WaitExecutors": False}, invariants=["InvCloseWaits"], init="Init", next_="Next", required_actions=["Pull", "Finish", "CloseReturns"], timeout=600, workers=6)
     c.mc("CloseProto", "close_repaired", {"Limit": 3, "NEvents": 2, "WaitExecutors": True}, invariants=["InvCloseWaits"], init="Init", next_="Next", required_actions=["Pull", "Finish", "CloseReturns"], timeout=600, workers=6)
     conform_exec(c, "close", lifecycle_cases(quick, c.seed * 29), EXEC_C06)
+    C06_cover(c)
     C06_sched(c)
+
+
+UNICHAN_CLOSE_INV = ("InvLinearizable", "InvBounds", "InvChanTypes", "InvWakersLock", "InvSmLocks", "InvRunningCount", "InvNoLoss", "InvCancelEnds", "InvCloseWaits", "InvClosedAfterwards")
+
+
+def C06_cover(c):
+    """specification -> implementation for the close protocol: UniChan (L2) now contains gracefully_end_all_streams (flush loop: pending count,
+       wake every stream, sleep; cancel_all_streams; wait until the running-streams count is zero), is_channel_open / running_streams_count and the
+       drop of a stream (report_stream_dropped + the rebuild of the used-streams list).  TLC checks InvCloseWaits / InvClosedAfterwards on every
+       reachable state of the small configurations; every transition of the state graph is replayed into the real movable atomic Uni channel,
+       validated operation by operation against UniChan and judged by the L1 close verdicts of Trace_AbsUni."""
+    quick = c.tier == "quick"
+    l1 = ["InvCloseWaits", "InvClosedAfterwards", "InvDeliveredAtMostOnce", "NoPanic"]
+    CLOSE = op("close")
+    cover.cover_unichan(c, "unichan_close", [[S(11)], [CLOSE], [DRIVE(0, max_=9), DROPS(0)]], l1, invariants=UNICHAN_CLOSE_INV, max_paths=4000 if quick else None)
+    cover.cover_unichan(c, "unichan_close_buffered", [[S(11), S(12), CLOSE], [DRIVE(0, max_=9), DROPS(0)]], l1, invariants=UNICHAN_CLOSE_INV, max_paths=2500 if quick else None)
+    if not quick:
+        cover.cover_unichan(c, "unichan_close_2ev", [[S(11), S(12)], [CLOSE], [DRIVE(0, max_=9), DROPS(0)]], l1, invariants=UNICHAN_CLOSE_INV, max_paths=30000)
 
 
 def C06_sched(c):
